@@ -5,12 +5,13 @@
     Clone/copyTreeRecur/CopyNode/CopyEdge (:1732–1800).
   Exact on `T` (child order and `ppos` included).  Core Lean only.
 
-  What CopyNode/CopyEdge copy is NOT hand-written: it is read from the table
-  regenerated from the source (`Gotree.Gen.C15.fields`).
+  What CopyNode/CopyEdge copy is NOT hand-written: every copy function takes the field table as an
+  argument (`cloneBy`, `subTreeBy`, `cliSubtreeBy`); `Gotree/Model/C15Gen.lean` instantiates them with the
+  table regenerated from the source (`Gotree.Gen.C15.fields`) as `clone`, `subTree`, `cliSubtree`.
+  This file imports no `Gen` module (round 7b): C03 imports it.
 -/
 import Gotree.Model.Core
 import Gotree.Model.C15Table
-import Gotree.Gen.C15Fields
 
 namespace Gotree.C15
 open Gotree
@@ -44,9 +45,6 @@ end
 /-- `Clone` with a given field table -/
 def cloneBy (tb : Table) (t : T) : T := copyRecBy tb t
 
-/-- `Clone` (the table of the current source) -/
-def clone (t : T) : T := cloneBy Gotree.Gen.C15.fields t
-
 /-- the node addressed by a child-index path -/
 def nodeAt : T → List Nat → Option T
   | t, [] => some t
@@ -57,8 +55,6 @@ def nodeAt : T → List Nat → Option T
 /-- `SubTree(n)`: a copy of everything below `n`, with a copy of `n` as root. -/
 def subTreeBy (tb : Table) (t : T) (path : List Nat) : Option T :=
   (nodeAt t path).map (copyRecBy tb)
-
-def subTree (t : T) (path : List Nat) : Option T := subTreeBy Gotree.Gen.C15.fields t path
 
 /- `T` with every `ppos` reset to 0: what any text or split observation sees. -/
 mutual
@@ -273,9 +269,9 @@ def nodesNamed (t : T) (name : String) : List (Bool × T) :=
 
 /-- `gotree subtree -i t -n '^name$'`: exactly one node matches and it is not a tip → its subtree;
     otherwise (no match, several matches, a tip) a message on stderr, nothing printed, exit 0 -/
-def cliSubtree (t : T) (name : String) : Option T :=
+def cliSubtreeBy (tb : Table) (t : T) (name : String) : Option T :=
   match nodesNamed t name with
-  | [(false, n)] => some (copyRecBy Gotree.Gen.C15.fields n)
+  | [(false, n)] => some (copyRecBy tb n)
   | _ => none
 
 /- ## derived state: the tip index and the branch bitsets (UpdateTipIndex :457, ClearBitSets/UpdateBitSet/
